@@ -185,15 +185,31 @@ def norm_tok(tok):
     return t
 
 
+def _consts_of(b):
+    for blk in b["blocks"]:
+        for st in blk["stmts"]:
+            if st["k"] == "assign":
+                rv = st["rv"]
+                for key in ("op", "a", "b"):
+                    o = rv.get(key)
+                    if isinstance(o, dict) and o.get("k") == "const":
+                        yield o
+                for o in (rv.get("ops") or []) + (rv.get("fields") or []):
+                    if isinstance(o, dict) and o.get("k") == "const":
+                        yield o
+        t = blk.get("term") or {}
+        for o in (t.get("args") or []):
+            if isinstance(o, dict) and o.get("k") == "const":
+                yield o
+
+
 def rule_units(ctx, rule="R3"):
     """seconds_multiplier: "s" -> 1, "ms" -> 1e-3, everything else an error; percent scale 1e-2; from -> 0, to -> 1"""
     F = ctx.facts
-    b = F.one(crate=PARSER_CRATE, name="seconds_multiplier")
-    eng = pse.Engine(F, inline=lambda fn, bb: False)
-    ps = eng.run(b)
-    ctx.count_paths(ps, b)
-    table = {}
-    for p in ps:
+    import struct
+    f32 = lambda x: struct.unpack("f", struct.pack("f", x))[0]
+
+    def str_key(p):
         key = None
         for (t, v, s) in p.conds:
             if t[0] == "bin" and t[1] == "Eq" and v == 1:
@@ -207,21 +223,61 @@ def rule_units(ctx, rule="R3"):
                     y = x[1] if x[0] in ("&",) else x
                     if pse.is_const(y) and isinstance(y[2], tuple) and y[2][0] == "str":
                         key = y[2][1]
-        r = p.ret
-        val = None
-        if r[0] == "agg" and r[3] == "Ok":
-            val = r[4][0][1]
-        table.setdefault(key, []).append(val)
+        return key
+
+    # the unit table is found by what it does, not by its name: the function of the parser crate that yields an f32 and
+    # decides on the literal's suffix by comparing it with string constants
+    cands = []
+    for b in F.find(crate=PARSER_CRATE):
+        if b["def_kind"] == "Closure" or "f32" not in (b.get("sig_output") or ""):
+            continue
+        if not any(c.get("k") == "const" and c.get("str") in ("ms", "s") for c in _consts_of(b)):
+            continue
+        cands.append(b)
+    if len(cands) != 1:
+        ctx.lost(rule, "unit-table", "expected exactly one f32-yielding function of %s that compares a suffix with \"s\"/\"ms\"; "
+                 "found %s" % (PARSER_CRATE, [b["path"] for b in cands]))
+        return
+    b = cands[0]
+    eng = pse.Engine(F, inline=lambda fn, bb: False)
+    ps = eng.run(b)
+    ctx.count_paths(ps, b)
+
     def fv(t):
         return t[2][2] if t is not None and pse.is_const(t) and isinstance(t[2], tuple) and t[2][0] == "f" else None
-    import struct
-    f32 = lambda x: struct.unpack("f", struct.pack("f", x))[0]
+
+    def multiplier(v):
+        """the factor a successful path applies: a constant result, magnitude * constant, or the bare magnitude (factor 1)"""
+        if fv(v) is not None:
+            return fv(v)
+        if v[0] == "bin" and v[1] == "Mul":
+            cs = [fv(x) for x in (v[2], v[3]) if fv(x) is not None]
+            if len(cs) == 1:
+                return cs[0]
+            return "?"
+        if not any(fv(x) is not None for x in pse.subterms(v)) and not any(x[0] == "bin" for x in pse.subterms(v)):
+            return 1.0
+        return "?"
+
+    table = {}
+    for p in ps:
+        key = str_key(p)
+        r = p.ret
+        val = None
+        if p.outcome == "return" and r[0] == "agg" and r[3] in ("Ok", "Some"):
+            val = multiplier(r[4][0][1])
+        elif p.outcome == "return" and r[0] == "call" and r[1].endswith("::from_residual"):
+            val = None      # an error of an earlier step propagated by `?`
+        elif p.outcome == "return" and r[0] != "agg":
+            val = "?" if r[0] != "noreturn" else None
+        table.setdefault(key, []).append(val)
     ok = set(k for k in table if k is not None) == {"s", "ms"} and \
-        [fv(v) for v in table.get("s", [])] == [1.0] and [fv(v) for v in table.get("ms", [])] == [f32(0.001)] and \
+        set(table.get("s", [])) == {1.0} and set(table.get("ms", [])) == {f32(0.001)} and \
         all(v is None for v in table.get(None, [None]))
-    ctx.ob(rule, "seconds_multiplier", ok,
-           "unit table must be exactly s -> 1, ms -> 0.001, anything else an error; it is %s"
-           % {k: [show(v) if v else "Err" for v in vs] for k, vs in table.items()}, b["span"], what="unit-table-wrong")
+    ctx.ob(rule, "unit-table", ok,
+           "unit table (%s) must be exactly s -> 1, ms -> 0.001, anything else an error; it is %s"
+           % (b["path"], {k: [v if v is not None else "Err" for v in vs] for k, vs in table.items()}), b["span"],
+           what="unit-table-wrong")
     # percent scale and from/to positions: constants in builder_append_keyframe
     b2 = F.one(crate=PARSER_CRATE, name="builder_append_keyframe")
     consts = set()
